@@ -513,6 +513,136 @@ def base_members(src, cls):
                 names.add(t)
     return sorted(names)
 
+
+# ------------------------------------------------------------------ how values and text are rendered (utils.hpp)
+
+def fn_body(src, name):
+    """text of the body of the (first) function `name`, comments removed, blanks squeezed"""
+    m = re.search(r'\b%s\s*\(' % re.escape(name), src)
+    while m:
+        # skip calls: a definition is followed by `{` after its parameter list
+        i = m.end() - 1
+        depth = 0
+        j = i
+        while j < len(src):
+            if src[j] == '(':
+                depth += 1
+            elif src[j] == ')':
+                depth -= 1
+                if depth == 0:
+                    break
+            j += 1
+        k = j + 1
+        while k < len(src) and src[k] in ' \t\r\n':
+            k += 1
+        if src.startswith('const', k):
+            k += 5
+            while k < len(src) and src[k] in ' \t\r\n':
+                k += 1
+        if k < len(src) and src[k] == '{':
+            depth = 0
+            e = k
+            while True:
+                if src[e] == '{':
+                    depth += 1
+                elif src[e] == '}':
+                    depth -= 1
+                    if depth == 0:
+                        break
+                elif src[e] in '"\'':
+                    q = src[e]
+                    e += 1
+                    while src[e] != q:
+                        e += 2 if src[e] == '\\' else 1
+                e += 1
+            body = src[k + 1:e]
+            body = re.sub(r'//[^\n]*', '', body)
+            return re.sub(r'\s+', ' ', body).strip()
+        m = re.search(r'\b%s\s*\(' % re.escape(name), src[m.end():]) and re.compile(r'\b%s\s*\(' % re.escape(name)).search(src, m.end())
+    return None
+
+
+STRIP_BODY = ("const auto is_negative = (!value.empty() && (value[0] == '-')); auto digits = value.substr(is_negative ? 1 : 0); "
+              "const auto first_non_zero = digits.find_first_not_of('0'); if(first_non_zero == std::string_view::npos) { "
+              "digits = digits.empty() ? digits : digits.substr(digits.size() - 1); } else { digits = digits.substr(first_non_zero); } "
+              "return fmt::format(\"{}{}\", is_negative ? \"-\" : \"\", digits);")
+ESCAPE_BODY = ("std::string res; res.reserve(text.size()); for(const char ch : text) { switch(ch) { "
+               "case '\"': res += \"\\\\\\\"\"; break; case '\\'': res += \"\\\\'\"; break; case '\\\\': res += \"\\\\\\\\\"; break; "
+               "case '?': res += \"\\\\?\"; break; case '\\n': res += \"\\\\n\"; break; case '\\r': res += \"\\\\r\"; break; "
+               "case '\\t': res += \"\\\\t\"; break; default: if(static_cast<unsigned char>(ch) < 0x20) { "
+               "res += fmt::format(\"\\\\{:03o}\", static_cast<unsigned char>(ch)); } else { res += ch; } } } return res;")
+TEXT_ARGS = ('description', 'semantic_type', 'character_encoding', 'package', 'semantic_version')
+
+
+def literal_rendering(repo, report):
+    """flags that say which rendering the Lean model (Gen/Literals.lean) has to describe; every flag is `true`
+    only if the C++ text has exactly the shape the Lean transliteration was written from"""
+    flags = {'stripsLeadingZeros': False, 'floatDotZero': False, 'escapesLiterals': False, 'valueRefRecordsDependency': False}
+    notes = {}
+    utils = open(os.path.join(repo, SRC, 'utils.hpp'), encoding='utf-8').read()
+    # to_integer_literal: both returns of a pasted text go through strip_leading_zeros, whose body is the known one
+    til = fn_body(utils, 'to_integer_literal')
+    slz = fn_body(utils, 'strip_leading_zeros')
+    if til is None:
+        raise ExtractError('utils::to_integer_literal not found')
+    pasted_raw = 'return std::string{value};' in til or 'fmt::format("{}UL", value)' in til
+    pasted_stripped = 'return strip_leading_zeros(value);' in til and 'fmt::format("{}UL", strip_leading_zeros(value))' in til
+    if pasted_stripped and not pasted_raw:
+        if slz != STRIP_BODY:
+            raise ExtractError('utils::strip_leading_zeros: body not recognised')
+        flags['stripsLeadingZeros'] = True
+    elif not (pasted_raw and not pasted_stripped):
+        raise ExtractError('utils::to_integer_literal: returns not recognised')
+    nlv = fn_body(utils, 'numeric_literal_to_value')
+    if nlv is None:
+        raise ExtractError('utils::numeric_literal_to_value not found')
+    if 'if(value.find_first_of(".eE") == std::string_view::npos) { return fmt::format("{}.0", value); } return std::string{value};' in nlv:
+        flags['floatDotZero'] = True
+    elif 'return std::string{value};' not in nlv or '.0' in nlv:
+        raise ExtractError('utils::numeric_literal_to_value: floating-point branch not recognised')
+    # escaping: every free-text argument of the traits templates, string / char constants, char enumerators
+    traits = open(os.path.join(repo, SRC, 'traits_generator.hpp'), encoding='utf-8').read()
+    tc = open(os.path.join(repo, SRC, 'types_compiler.hpp'), encoding='utf-8').read()
+    args = re.findall(r'fmt::arg\(\s*"(%s)"\s*,\s*([^;]*?)\)\s*[,)]\s*\n' % '|'.join(TEXT_ARGS), traits)
+    wrapped = [a for a in args if a[1].lstrip().startswith('utils::escape_literal(')]
+    msc = fn_body(utils, 'make_string_constant') or ''
+    mcc = fn_body(utils, 'make_char_constant') or ''
+    men = fn_body(tc, 'make_enumerators') or ''
+    others = ['.append(escape_literal(const_value))' in msc, "fmt::format(\"'{}'\", escape_literal(constant_value))" in mcc,
+              'utils::escape_literal(valid_value.value)' in men]
+    others_raw = ['.append(const_value)' in msc, "fmt::format(\"'{}'\", constant_value)" in mcc, 'valid_value.name, valid_value.value)' in men]
+    notes['text_args'] = len(args)
+    notes['text_args_escaped'] = len(wrapped)
+    if not args:
+        raise ExtractError('traits_generator: no free-text template arguments found')
+    if len(wrapped) == len(args) and all(others):
+        if fn_body(utils, 'escape_literal') != ESCAPE_BODY:
+            raise ExtractError('utils::escape_literal: body not recognised')
+        flags['escapesLiterals'] = True
+    elif not (not wrapped and all(others_raw)):
+        raise ExtractError('escaping is applied at some literal sites only (%d of %d template arguments; constants %r)'
+                           % (len(wrapped), len(args), others))
+    mc = open(os.path.join(repo, SRC, 'messages_compiler.hpp'), encoding='utf-8').read()
+    vre = fn_body(mc, 'value_ref_to_enumerator')
+    if vre is None:
+        raise ExtractError('messages_compiler::value_ref_to_enumerator not found')
+    flags['valueRefRecordsDependency'] = 'dependencies.emplace(e.name);' in vre
+    report['literal_rendering'] = dict(flags, **notes)
+    return flags
+
+
+def macros_std_unqualified(repo, used_macros):
+    """SBEPP_* function-like macros of sbepp.hpp that generated code invokes and whose replacement says `std::`
+    without a leading `::`"""
+    raw = open(os.path.join(repo, 'sbepp/src/sbepp/sbepp.hpp'), encoding='utf-8').read()
+    out = []
+    for name in sorted(used_macros):
+        for m in re.finditer(r'#\s*define\s+%s\b((?:[^\n]*\\\n)*[^\n]*)' % re.escape(name), raw):
+            if re.search(r'(?<![:\w])std\s*::', m.group(1)):
+                out.append(name)
+                break
+    return out
+
 # ------------------------------------------------------------------ rendering
 
 def lean_str(s):
@@ -647,6 +777,20 @@ def extract(repo, outdir):
     except (ExtractError, OSError) as ex:
         ok = False
         report['failed']['base_members'] = str(ex)
+    flags = {'stripsLeadingZeros': False, 'floatDotZero': False, 'escapesLiterals': False, 'valueRefRecordsDependency': False}
+    std_macros = []
+    try:
+        flags = literal_rendering(repo, report)
+        used_macros = set()
+        for f in FILES:
+            raw = open(os.path.join(repo, SRC, f), encoding='utf-8').read()
+            for fn, tpl, line in scan_raw_strings(raw):
+                used_macros |= set(re.findall(r'\bSBEPP_[A-Z_0-9]+(?=\s*\()', tpl))
+        std_macros = macros_std_unqualified(repo, used_macros)
+        report['macros_invoked_by_generated_code'] = sorted(used_macros)
+    except (ExtractError, OSError, ValueError, IndexError) as ex:
+        ok = False
+        report['failed']['literal_rendering'] = str(ex)
     obj, fun, used = platform_macros(repo)
     report['platform_macros'] = {'object_like': len(obj), 'function_like': len(fun), 'compilers': used}
     if not used:
@@ -670,6 +814,19 @@ def extract(repo, outdir):
     text += ('/-- names declared in the runtime base class of a generated class (sbepp.hpp), by class kind: a derived '
              'class of the same name\n    hides them -/\ndef baseMembers : List (String × String × List String) :=\n  [%s]\n\n'
              % ',\n   '.join('(%s, %s, %s)' % (lean_str(k), lean_str(c), lean_list(ms)) for k, c, ms in bases))
+    text += ('/-- `utils::to_integer_literal` pastes `strip_leading_zeros(value)` (body as transliterated in Gen/Literals.lean) -/\n'
+             'def stripsLeadingZeros : Bool := %s\n\n'
+             '/-- `utils::numeric_literal_to_value` appends `.0` to float/double values without `.`, `e`, `E` -/\n'
+             'def floatDotZero : Bool := %s\n\n'
+             '/-- every free-text site (description, semanticType, characterEncoding, package, semanticVersion, string and\n'
+             '    character constants, character enumerators) pastes `utils::escape_literal(text)` (body as transliterated) -/\n'
+             'def escapesLiterals : Bool := %s\n\n'
+             '/-- `messages_compiler::value_ref_to_enumerator` records the enum as a dependency of the message file -/\n'
+             'def valueRefRecordsDependency : Bool := %s\n\n'
+             '/-- macros of sbepp.hpp that generated code invokes and whose replacement text says `std::` unqualified -/\n'
+             'def macrosStdUnqualified : List String := %s\n\n'
+             % tuple(['true' if flags[k] else 'false' for k in ('stripsLeadingZeros', 'floatDotZero', 'escapesLiterals',
+                                                                'valueRefRecordsDependency')] + [lean_list(std_macros)]))
     text += '/-- `is_cpp_keyword`, sbe_schema_cpp_validator.hpp (names equal to one of these are rejected) -/\ndef cppKeywords : List String :=\n  %s\n\n' % chunk_list(kws)
     text += '/-- `is_reserved_cpp_namespace` (rejected as schema name only) -/\ndef reservedNamespaces : List String := %s\n\n' % lean_list(reserved)
     text += '/-- object-like macros (not reserved identifiers, not self-referential) defined after `#include <sbepp/sbepp.hpp>`\n    with %s -/\ndef objectMacros : List String :=\n  %s\n\n' % (', '.join(used) or 'no compiler', chunk_list(obj))
